@@ -130,11 +130,13 @@ Definition last_block_of (bl : list sblock) : option sblock := last (map Some bl
 Definition msg_header (bl : list sblock) : option shdr := match last_block_of bl with Some b => Some (sb_hdr b) | None => None end.
 Definition msg_data (bl : list sblock) : list N := List.concat (map sb_data bl).
 
+(* a block numbered 0 or 1 starts a message: blocks kept from an attempt that was never completed are dropped *)
+Definition starts_message (b : sblock) : bool := (s_block (sb_hdr b) =? 0) || (s_block (sb_hdr b) =? 1).
 Definition add_block (s : rstate) (b : sblock) : rstate * option (shdr * list N) :=
   let k := s_system (sb_hdr b) in
   let bl := match rs_lookup k s with
             | None => split_blocks (sb_data b) (sb_hdr b) false       (* message_type.from_block(block) *)
-            | Some old => old ++ [b]
+            | Some old => if starts_message b then split_blocks (sb_data b) (sb_hdr b) false else old ++ [b]
             end in
   let s' := rs_set k bl s in
   match msg_header bl with
